@@ -133,6 +133,9 @@ def camel(s):
     return re.sub(r"_([a-z\d])", lambda m: m.group(1).upper(), s)
 
 
+FAIL = object()      # no finite value at this depth
+
+
 class VG:
     def __init__(self, rng, u, mod):
         self.rng, self.u, self.mod = rng, u, mod
@@ -150,27 +153,36 @@ class VG:
         if k == "enum":
             return rng.choice(list(self.mod.__dict__[f"E{t[1]}"]))
         if k == "list":
-            return [self.value(t[1], depth - 1) for _ in range(rng.choice([0, 1, 2]) if depth > 0 else 0)]
+            items = [self.value(t[1], depth - 1) for _ in range(rng.choice([0, 1, 2]) if depth > 0 else 0)]
+            return [x for x in items if x is not FAIL]
         if k == "opt":
-            return None if (rng.random() < 0.4 or depth <= 0) else self.value(t[1], depth - 1)
+            if rng.random() < 0.4 or depth <= 0:
+                return None
+            v = self.value(t[1], depth - 1)
+            return None if v is FAIL else v
         if k == "undef":
             from apischema import Undefined
-            return Undefined if rng.random() < 0.5 else self.value(t[1], depth)
+            if rng.random() < 0.5:
+                return Undefined
+            v = self.value(t[1], depth)
+            return Undefined if v is FAIL else v
         if k == "obj":
             return self.obj(t[1], depth - 1)
         if k == "con":
             return self.value(t[1], depth)
 
     def obj(self, ci, depth):
+        if depth < -1:
+            return FAIL
         c = self.u["classes"][ci]
         kw = {}
         for f in c["fields"]:
             if f["required"] or self.rng.random() < 0.6:
-                if f["ty"][0] == "obj" and depth <= 0:
-                    return None     # cannot finish a required recursion: caller retries
                 v = self.value(f["ty"], depth)
-                if v is None and f["ty"][0] == "obj":
-                    return None
+                if v is FAIL:
+                    if f["required"]:
+                        return FAIL
+                    continue
                 kw[f["name"]] = v
         return self.mod.__dict__[f"C{ci}"](**kw)
 
@@ -252,12 +264,12 @@ def run(tier):
         values, resolvers, calls = {}, [], []
         ns = dict(mod.__dict__)
         for ci in range(len(u["classes"])):
-            v = None
+            v = FAIL
             for _ in range(6):
                 v = gen.obj(ci, 3)
-                if v is not None:
+                if v is not FAIL:
                     break
-            if v is None:
+            if v is FAIL:
                 continue
             values[ci] = v
             ns["_values"] = values
@@ -408,7 +420,7 @@ def argument_checks(R, graphql, schema, u, pmeta, calls, aliaser, gen, info, rng
             if d != "DRequired" and rng.random() < 0.4:
                 continue
             v = gen.value(t, 2)
-            if v is None and t[0] not in ("opt",):
+            if v is FAIL:
                 ok = False
                 break
             if v is Undefined:
